@@ -26,8 +26,20 @@ fn main() {
     }
     if args[0] == "replay" {
         let Some(path) = args.get(1) else { usage() };
-        let text = std::fs::read_to_string(path).expect("read replay file");
-        let v: serde_json::Value = serde_json::from_str(&text).expect("replay file json");
+        let text = match std::fs::read_to_string(path) {
+            Ok(t) => t,
+            Err(e) => {
+                println!("HARNESS-ERROR: cannot read replay file {path}: {e}");
+                std::process::exit(2);
+            }
+        };
+        let v: serde_json::Value = match serde_json::from_str(&text) {
+            Ok(v) => v,
+            Err(e) => {
+                println!("HARNESS-ERROR: replay file {path} is not JSON: {e}");
+                std::process::exit(2);
+            }
+        };
         let id = v["property"].as_str().expect("property").to_owned();
         let spec = match v["kind"].as_str() {
             Some("probe") => ReplaySpec::Probe { name: v["probe"].as_str().expect("probe").to_owned() },
